@@ -50,24 +50,33 @@ def type_values(P):
     return vals, found
 
 
-def codec_of_call(c):
-    """('enc'|'dec'|'unpack'|'copy', codec global name) of a call, or None."""
+def codec_of_call(c, envs=None):
+    """('enc'|'dec'|'unpack'|'copy', codec global name) of a call, or None.  envs: what reach_under knew at the call -
+    a codec that travels in a local pointer is resolved when every way of getting here gave it the same table."""
+    def named(a):
+        if a.get("k") == "Un" and a["op"] == "&":
+            return pp(sk(a["a"][0]))
+        nm = pp(a)
+        if envs is not None and a.get("k") == "Ref" and a["ref"].get("rk") in ("local", "param"):
+            vals = {e_.get(nm) for e_ in envs.get(c.get("n"), [])}
+            if len(vals) == 1:
+                v = next(iter(vals))
+                if isinstance(v, tuple) and v[0] == "&":
+                    return v[1]
+        return nm
     fn = c.get("fn")
     if fn == "unpack_data":
-        a = sk(c["a"][-1])
-        if a.get("k") == "Un" and a["op"] == "&":
-            return "unpack", pp(sk(a["a"][0]))
-        return "unpack", pp(a)
+        return "unpack", named(sk(c["a"][-1]))
     if fn == "memcpy":
         return "copy", "raw"
     if not fn:
         ce = sk(c.get("callee"))
         if ce is not None and ce.get("k") == "Mem" and ce["field"] in ("encode", "decode"):
-            return ("enc" if ce["field"] == "encode" else "dec"), pp(sk(ce["a"][0]))
+            return ("enc" if ce["field"] == "encode" else "dec"), named(sk(ce["a"][0]))
     return None
 
 
-def reached_stores(f, blocks, bufname, index=0):
+def reached_stores(f, blocks, bufname, index=0, envs=None):
     out = []
     for bid in blocks:
         for e in f.blocks[bid].elems:
@@ -76,6 +85,11 @@ def reached_stores(f, blocks, bufname, index=0):
                 lhs = sk(x["a"][0])
                 if lhs.get("k") == "Sub" and pp(sk(lhs["a"][0])) == bufname and cval(sk(lhs["a"][1])) == index:
                     v = cval(sk(x["a"][1]))
+                    if v is None and envs is not None and sk(x["a"][1]).get("k") == "Ref":
+                        # the letter travels in a local that holds one constant on every way of getting here
+                        vals = {e_.get(pp(sk(x["a"][1]))) for e_ in envs.get(x.get("n"), [])}
+                        if len(vals) == 1 and isinstance(next(iter(vals)), int):
+                            v = next(iter(vals))
                     if v is not None:
                         out.append((x, v))
     return out
@@ -107,10 +121,11 @@ def run(P, chk, tier):
         raise AnalysisBroken("C09.R1: writer signatures changed")
     reader = {}
     for ch in list(range(ord("A"), ord("Z") + 1)) + list(range(ord("a"), ord("z") + 1)):
-        blocks, callees, calls = tables.reach_under(nd, {"buf[0]": ch})
+        envs = {}
+        blocks, callees, calls = tables.reach_under(nd, {"buf[0]": ch}, envs=envs)
         kinds = set()
         for b, c in calls:
-            cc = codec_of_call(c)
+            cc = codec_of_call(c, envs)
             if cc is not None:
                 kinds.add(cc)
         if "warnx" in callees and not kinds:
@@ -121,9 +136,10 @@ def run(P, chk, tier):
         raise AnalysisBroken("C09.R1: decoder table not recognised (%d letters)" % len(reader))
     for opt in "TSUVR":
         # hostname formats
-        blocks, callees, calls = tables.reach_under(wn, {dkey_n: ord(opt)})
-        letters = {chr(v) for _, v in reached_stores(wn, blocks, wn.params[0]["ref"]["name"])}
-        codecs = {codec_of_call(c)[1] for b, c in calls if codec_of_call(c) and codec_of_call(c)[0] == "enc"}
+        envs = {}
+        blocks, callees, calls = tables.reach_under(wn, {dkey_n: ord(opt)}, envs=envs)
+        letters = {chr(v) for _, v in reached_stores(wn, blocks, wn.params[0]["ref"]["name"], envs=envs)}
+        codecs = {codec_of_call(c, envs)[1] for b, c in calls if codec_of_call(c) and codec_of_call(c)[0] == "enc"}
         want_codec = DOC[opt] if opt != "R" else DOC["T"]        # raw is not legal in a hostname: falls back to Base32
         want_letter = DOC_HOST.get(opt, DOC_HOST["T"])
         known_ops = set(DOC.values()) | {"raw"}
@@ -145,11 +161,12 @@ def run(P, chk, tier):
                 chk.site(r1, nd, nd.line, "reader: letter '%s' (hostname, option %s)" % (variant, opt), okr,
                          "decoder uses %s, writer used %s" % (sorted(rd), sorted(codecs)))
         # TXT
-        blocks, callees, calls = tables.reach_under(wd, {"q->type": tv["T_TXT"], dkey_w: ord(opt)})
-        letters = {chr(v) for _, v in reached_stores(wd, blocks, "txtbuf")}
+        envs = {}
+        blocks, callees, calls = tables.reach_under(wd, {"q->type": tv["T_TXT"], dkey_w: ord(opt)}, envs=envs)
+        letters = {chr(v) for _, v in reached_stores(wd, blocks, "txtbuf", envs=envs)}
         codecs = set()
         for b, c in calls:
-            cc = codec_of_call(c)
+            cc = codec_of_call(c, envs)
             if cc and cc[0] == "enc":
                 codecs.add(cc[1])
             if cc and cc[0] == "copy" and "txtbuf" in pp(sk(c["a"][0])):
@@ -506,7 +523,60 @@ def txt_tiling(P, E, chk, r5):
 
 
 def reserve(P, chk, r7, wn):
-    """space = MIN(C, buflen) - K; space -= space / D per codec arm; name = 1 + space + space/D' ... """
+    """The capacity handed to the encoder, evaluated from the writer's own arithmetic for every buffer size and codec
+    option: prefix + encoded characters + the dots inline_dotify adds + ".xy" must fit the buffer and a DNS name."""
+    from iosa import ceval
+    idf = P.func("inline_dotify", "encoding.c")
+    ds2 = set()
+    for b, x in idf.all_nodes():
+        if x.get("k") == "Bin" and x["op"] in ("/", "%") and cval(sk(x["a"][1])) is not None:
+            ds2.add(cval(sk(x["a"][1])))
+    if len(ds2) == 1 and len(wn.params) >= 5:
+        D = next(iter(ds2))
+        pn = [p_["ref"]["name"] for p_ in wn.params]
+
+        def is_encode(x):
+            ce = sk(x.get("callee")) if not x.get("fn") else None
+            return ce is not None and ce.get("k") == "Mem" and ce["field"] == "encode"
+
+        def dots_unknown(b, succs):
+            # `!codec.places_dots`: none of the codecs places its own dots
+            c = sk(b.term["cond"])
+            if "places_dots" not in pp(c):
+                raise ceval.Unknown(pp(c)[:40])
+            return succs[0] if (c.get("k") == "Un" and c["op"] == "!") else succs[1]
+        bad, n, smallest = [], 0, None
+        try:
+            for opt in "TSUVR":
+                for buflen in range(8, 1100):
+                    env = {pn[1]: buflen, pn[3]: 4096, pn[4]: ord(opt)}
+                    stopnode = ceval.run_straight(wn, env, {}, is_encode, on_unknown=dots_unknown)
+                    if stopnode is None:
+                        raise ceval.Unknown("encoder call not reached")
+                    capvar = sk(stopnode["a"][1])
+                    if capvar.get("k") == "Un" and capvar["op"] == "&":
+                        capvar = sk(capvar["a"][0])
+                    S = env.get(pp(capvar))
+                    if S is None:
+                        raise ceval.Unknown("capacity variable %s not evaluated" % pp(capvar))
+                    n += 1
+                    if S < 1:
+                        continue
+                    smallest = S if smallest is None else min(smallest, S)
+                    enc = 1 + S                         # prefix + encoded characters
+                    total = enc + enc // D + 1 + 2      # + dots + separator dot + two letters
+                    # text form of `total` characters is total + 2 bytes on the wire (first length byte, root label)
+                    if S > 4096 or total + 1 > buflen or total + 2 > 255:
+                        bad.append((opt, buflen, S, total))
+                    if min(enc, D) > 63:
+                        bad.append((opt, buflen, "label", D))
+            chk.site(r7, wn, wn.line, "name length for every buffer size and codec option (evaluated, D=%d)" % D, not bad,
+                     "prefix + space + dots + 3 fits MIN(255, buflen) for buflen 8..1099, %d evaluations, smallest space %s" % (n, smallest)
+                     if not bad else "overflows at (option, buflen, space, name length) = %s" % (bad[:3],))
+            chk.site(r7, idf, idf.line, "dot interval", True, "inline_dotify uses %d" % D)
+            return
+        except ceval.Unknown:
+            pass            # fall back to the recognised form of the arithmetic
     K = None
     C_ = None
     Ds = set()
